@@ -44,7 +44,7 @@ def run(ctx) -> None:
     ctx.rule("a.dispatch", "every arithmetic dunder forwards to the kernel with the operator (or _reverse_ helper) of its own "
                            "name; _reverse_X(y, x) returns x X y; a reflected form may call the forward form only for *", 30)
     ctx.rule("b.no-truncation", "every zip() over operands in the operator / comparison / concatenation / mask code is strict=True "
-                                "or dominated by a raising length comparison of the same operands (others: explicit table with reason)", 20)
+                                "or dominated by a raising length comparison of the same operands (others: explicit table with reason)", 10)
     ctx.rule("b.length-before-result", "in _elementwise_operation / __radd__ nothing is returned for a vector/sequence operand "
                                        "before the lengths have been compared", 2)
     ctx.rule("c.pairing", "kernel elements are op_func(x, y) with x from self and y from other (scalar: op_func(x, other)); "
